@@ -103,7 +103,7 @@ def gen_cases(chk):
         lib = gen_lib(rng, ver, "plain" if i % 3 == 0 else "mixed")
         pairs.append((gen_style(rng, lib, plain=(i % 5 == 0)), lib)); kinds.append("random")
     base = []
-    for k, b in zip(kinds, render_cases(chk, pairs, "c05_render")):
+    for k, b in zip(kinds, C4.render_pairs(chk, pairs, "c05_render")):
         if add(k, b):
             base.append(b.decode("utf8"))
     for n, b in corpus():
